@@ -28,7 +28,7 @@ OPEN = {
 	'C07': 'The HTTP/1.0 + chunked combination is finding F6. The framing clause holds for every stream and fragmentation on both sides (`delivered_messages_framed`, `Props/C07Invariant.lean`); the trailer clause is proved for the merge of a trailer section (`Props/C07Trailers.lean`: `mergeTrailers_only_announced`, `trailer_fields_all_announced`, `framing_fields_untouched`) and for the step of the state machine that reads the section (`parseTrailers_framing_untouched`), for every state and section; at the loop level Content-Length and Transfer-Encoding of a delivered message are already fixed by the invariant, the Trailer field and "announced only" are not restated there (it would need a ghost copy of the header section).',
 	'C08': 'The round-trip clause is a theorem (`compose_parse_roundtrip`, `Proofs/HeadersRoundtrip.lean`) for collections without list-valued fields; those (Set-Cookie, WWW-Authenticate, Proxy-Authenticate) are composed field-specifically and judged by the oracle.',
 	'C09': 'The whole element is a theorem (`element_roundtrip`, `Proofs/ElementRoundtrip.lean`): a value and any number of parameters with pairwise different canonical keys and ASCII values free of double quotes parse back in order; the proof carries quote parity across parameters, so no `;` or `,` inside a quoted value cuts and no parameter merges with its neighbour. The list clause is `list_roundtrip` (split of join gives back the composed elements, each parses to its element). Open as theorems: RFC 2231 continuations and RFC 5987 extended values - tied by correspondence for the four element classes.',
-	'C10': 'The whole URI is a theorem since `Props/C10Whole.lean` (`parse_compose`, `compose_parse_compose`): the inner cuts (userinfo, host:port, path), the outer cuts (`uri_cuts`) and the record (class by scheme, port default or explicit) assembled for absolute URIs with a registered-name host. Outside it: IPv4/IPv6 literals and IDN hosts (socket / idna: oracle only), relative references and URIs without authority (correspondence and oracle).',
+	'C10': 'The whole URI is a theorem since `Props/C10Whole.lean` (`parse_compose`, `compose_parse_compose`): the inner cuts (userinfo, host:port, path), the outer cuts (`uri_cuts`) and the record (class by scheme, port default or explicit) assembled for absolute URIs with a registered-name host. The host position has its own theorems since the F65 repair (`Props/C10Host.lean`): `host_no_leak` (no delimiter of a host text reaches the composed form unescaped, for every text) and `unquoteHost_quote` (an ASCII registered name, delimiters and blanks included, comes back from its composed form). Outside it: IPv4/IPv6 literals and IDN hosts (socket / idna: oracle only), relative references and URIs without authority (correspondence and oracle).',
 	'C11': 'The RFC clause is a theorem for `abspath()` itself (`abspath_eq_rfc`, `normalize_path_rfc`; `Proofs/Rfc.lean`, `Proofs/RfcAbspath.lean`): the buffer-rewriting loop of RFC 3986 §5.2.4 is shown to be a stack machine on segments, the segment loop of `abspath` (`abspathCore`, whose stack also holds, and may pop, the root segment) is related to it, and the root that the loop may have popped is what `abspath` restores since the F60 repair. Trusted there: the transcription of the RFC text.',
 	'C12': 'Degenerate references ("?", "#", "//", "s:") are outside the quantifier.',
 	'C13': 'The unguarded statement is false of the code (F1); `unquote_quote_fixed` proves it for the `%02X` variant, `c13_witness` exhibits the failure.',
